@@ -25,7 +25,7 @@ func init() {
 			"combination of range/prefix/suffix/limit, transactions by handle (read-only and read-write, TxGet/TxPut/TxDelete/TxScan, commit/rollback, two read-only handles at once), node info, " +
 			"boundary requests (key length 0/1/4096/4097, value 10MB/10MB+1, unknown and finished handles). Oracle: the sequential map model + sorted scan model (what the embedded calls return); " +
 			"rejected requests leave model, engine and lock state unchanged (a fresh read-write transaction must begin within 5s after every rejection); a finished handle is unusable. " +
-			"distinct = hash of the request-kind sequence; non-trivial = >= 1 transaction by handle, >= 1 scan with options and >= 1 rejected request in the sequence",
+			"Every 4th case lets 2-3 clients begin transactions at the same time behind a lock holder (distinct, independently usable handles); every 4th case abandons a 360KB scan after 1-4 rows and probes the lock. distinct = hash of the request-kind sequence; non-trivial = >= 1 transaction by handle, >= 1 scan with options and >= 1 rejected request in the sequence",
 		Assumptions: []string{"scan option precedence as implemented and documented: prefix and/or suffix given => filter only; otherwise range; empty bound = unbounded",
 			"a TxGet with an invalid key may end the transaction (documented 'automatic release'); the monitor probes the handle afterwards and follows either outcome",
 			"requests that need the database lock are not issued while the same client holds a read-write handle (excluded by the documented single-lock limitation)"},
